@@ -137,6 +137,9 @@ class Run(RunBase):
             p = ob.prediction
             ca, sa = p.center_lanelet_assignment, p.shape_lanelet_assignment
             recs.append(("prediction", None if ca is None else ca.get(t), None if sa is None else sa.get(t)))
+        if t == t0 and len(recs) == 2 and (recs[1][1] is None or recs[1][2] is None) and \
+                recs[0][1] is not None and recs[0][2] is not None:
+            recs = recs[:1]  # the initial step may be recorded on the obstacle only (ready-made assignments)
         for where, c, s in recs:
             if c is None or s is None:
                 raise Violation(f"C07/assignment-missing/{tag}",
@@ -212,6 +215,8 @@ class Run(RunBase):
                         self.probe("standing-obstacle-turns-on-the-spot")
                 if any(shape_t[i] is True and center_t[i] is False for i in polys):
                     self.probe("shape-touches-lanelet-center-is-not-in")
+                if any(center_t[i] is True and shape_t[i] is False for i in polys):
+                    self.probe("center-on-lanelet-the-shape-does-not-touch")
                 self.probe(f"assigned-shape-{raw['t']}")
         for la in sc.lanelet_network.lanelets:
             lid = la.lanelet_id
@@ -247,15 +252,42 @@ class Run(RunBase):
         self.probe("continued-on-the-other-copy")
         return "ok"
 
+    def _preassign(self, ob):
+        """Give a freshly built obstacle a ready-made assignment the way another tool would: initial sets on the
+        obstacle, trajectory steps (NOT the initial step) in the prediction's dictionaries.  Returns False if some
+        verdict lies in the don't-care band (then the obstacle is added unassigned)."""
+        polys = self._polys()
+        rec = {}
+        for t in self._timesteps(ob):
+            c, s, raw = self._truth(ob, t, polys)
+            if geom.has_circle(raw) and geom.circle_export_scale() != 1.0:
+                return False
+            if any(v is None for v in c.values()) or any(v is None for v in s.values()):
+                return False
+            rec[t] = ({i for i, v in c.items() if v}, {i for i, v in s.items() if v})
+        t0 = ob.initial_state.time_step
+        ob.initial_center_lanelet_ids, ob.initial_shape_lanelet_ids = set(rec[t0][0]), set(rec[t0][1])
+        if isinstance(ob, DynamicObstacle) and ob.prediction is not None:
+            ob.prediction.center_lanelet_assignment = {t: set(v[0]) for t, v in rec.items() if t != t0}
+            ob.prediction.shape_lanelet_assignment = {t: set(v[1]) for t, v in rec.items() if t != t0}
+        return True
+
     def _op_add(self, op):
         spec = self.pool[op["key"]]
         self.last = "add"
+        ob = build.build_obstacle(spec)
+        pre = False
+        if op.get("preassign") and _kind(spec) in ("static", "dynamic") and self.sc.lanelet_network.lanelets:
+            pre = self._preassign(ob)
+            if pre:
+                self.last = "add[pre-assigned]"
+                self.probe("pre-assigned-obstacle-added")
         try:
-            self.sc.add_objects(build.build_obstacle(spec))
+            self.sc.add_objects(ob)
         except Exception as e:  # noqa
-            raise Violation("C07/add-raised/<-add", f"adding an unassigned obstacle raised {type(e).__name__}: {e}")
+            raise Violation(f"C07/add-raised/<-{self.last}", f"adding an obstacle raised {type(e).__name__}: {e}")
         self.contained[spec["id"]] = _kind(spec)
-        self.assigned[spec["id"]] = False
+        self.assigned[spec["id"]] = True if pre else False
         return "ok"
 
     def _op_readd(self, op):
@@ -369,7 +401,7 @@ def _adder(rng, run, cfg):
     while True:
         free = [k for k in sorted(run.pool) if run.pool[k]["id"] not in run.contained and
                 run.pool[k]["id"] not in run.stash]
-        yield {"op": "add", "key": rng.pick(free)} if free else None
+        yield {"op": "add", "key": rng.pick(free), "preassign": rng.chance(0.3)} if free else None
 
 
 def _assigner(rng, run, cfg):
@@ -431,7 +463,8 @@ class C07(Property):
                        "restart-pb+assign", "restart-xml", "dynamic-without-prediction-read-with-assignment",
                        "partially-assigned-obstacle-checked", "standing-obstacle-turns-on-the-spot",
                        "fork-keeps-original", "continued-on-the-other-copy", "creeping-obstacle-crosses-boundary",
-                       "set-based-bystander-present"]
+                       "set-based-bystander-present", "center-on-lanelet-the-shape-does-not-touch",
+                       "pre-assigned-obstacle-added"]
     assumptions = [
         "geometric truth comes from crkit.geom with its don't-care band; the footprint at a time step is read from the "
         "parameters of occupancy_at_time(t).shape (whether that occupancy is the right placement is C04)",
@@ -458,7 +491,8 @@ class C07(Property):
                                 [4, 5, 2, 0.5, 0.5, 0.7])
             kinds = ("rect", "circ", "poly", "group") if rng.chance(0.25) else ("rect", "circ", "poly")
             spec = gen.gen_obstacle(rng, ids.take(), net, role=role, shape_kinds=kinds, on_road=0.85,
-                                    state_cls=rng.choice(["ks", "st"]), horizon=rng.randint(1, 4), p_stand=0.25)
+                                    state_cls=rng.choice(["ks", "st"]), horizon=rng.randint(1, 4), p_stand=0.25,
+                                    offset_p=0.25)
             if spec.get("shape", {}).get("t") in ("rect", "poly") and rng.chance(0.3):
                 # long vehicles reach into neighbouring lanelets while their centre stays in one
                 if spec["shape"]["t"] == "rect":
@@ -530,6 +564,8 @@ class C07(Property):
                 yield dict(universe, network=dict(net, lanelets=keep))
 
     def simplify_op(self, op):
+        if op["op"] == "add" and op.get("preassign"):
+            yield dict(op, preassign=False)
         if op["op"] == "remove" and len(op["ids"]) > 1:
             for i in range(len(op["ids"])):
                 yield dict(op, ids=op["ids"][:i] + op["ids"][i + 1:])
